@@ -978,6 +978,385 @@ def polymorph_corr(ctx, r, vt, raw, poly):
     ctx.tick('polymorph_rows')
 
 
+# ------------------------------------------------------------------------------------ histories on ONE BinaryPolynomial object
+# reduce -> mutate (biases only / add / delete terms / relabel / MutableMapping mixins) -> reduce the SAME object again, with every
+# reduction entry point; after every step every read accessor of the polynomial against an independent mirror (exact Fractions)
+
+HIST_LIB = r"""
+class Rec(dimod.Sampler):
+    parameters = {}; properties = {}
+    def __init__(self): self.bqm = None
+    def sample(self, bqm, **kw):
+        self.bqm = bqm.copy(); self.bqm.info = {'reduction': dict(bqm.info['reduction'])}; return dimod.ExactSolver().sample(bqm)
+def en(bqm, x):
+    return F(bqm.offset) + sum(F(bqm.get_linear(v)) * x[v] for v in bqm.variables) + sum(F(q) * x[u] * x[v] for u, v, q in bqm.iter_quadratic())
+def pvars(P, extra=()):
+    return sorted({v for t in P for v in t} | set(extra), key=repr)
+def conv(P, binary):
+    # the same function in the other vartype, from the definition: x = (1 + s)/2  resp.  s = 2x - 1, product expanded over all subsets
+    Q = {}
+    for t, b in P.items():
+        t = sorted(t, key=repr)
+        for k in range(len(t) + 1):
+            for S in itertools.combinations(t, k):
+                c = b / F(2) ** len(t) if binary else b * F(2) ** len(S) * (-1) ** (len(t) - len(S))
+                Q[frozenset(S)] = Q.get(frozenset(S), F(0)) + c
+    return Q
+def reads(poly, P):
+    # every read accessor of the polynomial object against the mirror P
+    assert {t: F(b) for t, b in poly.items()} == P, ("items", dict(poly.items()), P)
+    assert len(poly) == len(P) and set(poly) == set(P) and set(poly.keys()) == set(P), "len / iteration"
+    assert poly.variables == {v for t in P for v in t}, ("variables", poly.variables)
+    assert poly.degree == max([len(t) for t in P], default=0), ("degree", poly.degree)
+    assert all(tuple(t) in poly and F(poly[tuple(t)]) == b for t, b in P.items()), "contains / getitem"
+    vs = pvars(P); dom = (0, 1) if poly.vartype is dimod.BINARY else (-1, 1)
+    for k in range(3 if vs else 0):
+        x = {v: dom[(i * 7 + k * 3 + (i * k) % 2) % 2] for i, v in enumerate(vs)}
+        assert F(float(poly.energy(x))) == pe(P, x), ("energy", x, poly.energy(x), pe(P, x))
+        assert F(float(dimod.poly_energy(x, poly))) == pe(P, x), ("poly_energy", x, dimod.poly_energy(x, poly), pe(P, x))
+        assert [F(float(e)) for e in dimod.poly_energies([x, x], poly)] == [pe(P, x)] * 2, ("poly_energies", x)
+    assert poly == dimod.BinaryPolynomial({t: float(b) for t, b in P.items()}, poly.vartype), "__eq__"
+    # objects reached from it: copy, the conversions, the hising / hubo forms (each must reflect the CURRENT terms)
+    cp = poly.copy()
+    assert cp is not poly and cp == poly and not (cp != poly) and {t: F(b) for t, b in cp.items()} == P, ("copy", dict(cp.items()))
+    assert isinstance(repr(poly), str)
+    binary = poly.vartype is dimod.BINARY
+    other = poly.to_spin() if binary else poly.to_binary()
+    keep = poly.to_binary() if binary else poly.to_spin()
+    assert other.vartype is (dimod.SPIN if binary else dimod.BINARY) and keep.vartype is poly.vartype and keep == poly, "to_spin / to_binary vartype"
+    Q = conv(P, binary)
+    assert {t: F(b) for t, b in other.items() if b} == {t: b for t, b in Q.items() if b}, ("to_spin / to_binary", dict(other.items()), Q)
+    h, J, off = poly.to_hising()
+    assert dimod.BinaryPolynomial.from_hising(h, J, off) == (other if binary else poly), ("to_hising", h, J, off)
+    H, off2 = poly.to_hubo()
+    assert dimod.BinaryPolynomial.from_hubo(H, off2) == (poly if binary else other), ("to_hubo", H, off2)
+def exact_red(red, cons, P):
+    vs = pvars(P); dom_ = DOM
+    assert all(len(t) <= 2 for t, _ in red), "degree > 2"
+    prods = [p for _, p in cons]
+    assert len(set(prods)) == len(prods) and not (set(prods) & set(vs)), ("product variables not fresh", prods)
+    R = {}
+    for tm, b in red: R[tm] = R.get(tm, 0) + F(b)
+    for t in itertools.product(dom_, repeat=len(vs)):
+        x = dict(zip(vs, t))
+        for pair, p in cons:
+            u, v = pair; x[p] = x[u] * x[v]
+        assert pe(R, x) == pe(P, x), ("reduced energy on a consistent assignment", x, pe(R, x), pe(P, x))
+def exact_bqm(bqm, P, given=None, dom=None):
+    # min over the spin auxiliaries == polynomial (+ the given model) at every consistent assignment
+    info = bqm.info["reduction"]; dom_ = dom or DOM
+    prods = [d["product"] for d in info.values()]; auxs = [d["auxiliary"] for d in info.values() if "auxiliary" in d]
+    vs = pvars(P, given.variables if given is not None else ())
+    assert set(bqm.variables) >= set(vs), ("a variable is missing from the quadratic model", set(vs) - set(bqm.variables))
+    assert len(set(prods + auxs + vs)) == len(prods) + len(auxs) + len(vs), "introduced variables are not distinct / fresh"
+    assert set(bqm.variables) == set(prods + auxs + vs), ("unexpected variables", list(bqm.variables))
+    for t in itertools.product(dom_, repeat=len(vs)):
+        x = dict(zip(vs, t))
+        for (u, v), d in info.items(): x[d["product"]] = x[u] * x[v]
+        m = min(en(bqm, {**x, **dict(zip(auxs, a))}) for a in itertools.product(dom_, repeat=len(auxs)))
+        want = pe(P, x) + (en(given, x) if given is not None else 0)
+        assert m == want, ("model energy (min over auxiliaries) on a consistent assignment", x, m, want)
+def exact_cqm(cqm, P):
+    vs = pvars(P); dom_ = DOM
+    allv = list(cqm.variables)
+    assert set(allv) >= set(vs), ("a variable is missing from the CQM", set(vs) - set(allv))
+    nfeas = 0
+    for t in itertools.product(dom_, repeat=len(allv)):
+        x = dict(zip(allv, t))
+        if all(F(float(c.lhs.energy(x))) == F(float(c.rhs)) for c in cqm.constraints.values()):
+            nfeas += 1
+            assert F(float(cqm.objective.energy(x))) == pe(P, x), ("objective on a feasible assignment", x, cqm.objective.energy(x), pe(P, x))
+    assert nfeas == len(dom_) ** len(vs), ("feasible assignments are not exactly the consistent ones", nfeas)
+def exact_hoc(ss, child, P):
+    for s, e in ss.data(["sample", "energy"]):
+        assert F(float(e)) == pe(P, s), ("reported energy", dict(s), e, pe(P, s))
+    exact_bqm(child.bqm, P)
+"""
+
+
+def _plit(ref):
+    return 'P = {' + ', '.join(f'frozenset({sorted(t, key=repr)!r}): F({b.numerator}, {b.denominator})' for t, b in ref.items()) + '}'
+
+
+HIST_BIAS_ONLY = ('scale', 'scale-ignored', 'normalize', 'set', 'iadd', 'update-existing', 'setdefault-existing', 'none')
+
+
+def history_case(ctx, r, lines, checks, directed=None):
+    if directed:
+        vt, raw = directed
+    else:
+        vt, raw = gen_poly(r)
+        raw = [(t, b) for t, b in raw if len(set(t)) <= 4][:5]
+        if not any(len(set(t)) > 2 for t, _ in raw):
+            vs0 = sorted({v for t, _ in raw for v in t}, key=repr)[:4]
+            pool = (vs0 + [v for v in ALPHA if v not in vs0])[:4]
+            raw.append((tuple(pool[:r.choice([3, 4])]), F(r.randint(1, 8), 4)))
+    if len({v for t, _ in raw for v in t}) > 6:
+        return
+    dom = (0, 1) if vt == 'BINARY' else (-1, 1)
+    rawf = [(t, float(b)) for t, b in raw]
+    env = {}
+    pre = HDR + f'DOM = {dom!r}\n' + HIST_LIB
+    exec(pre, env)
+    stmts = [f'vt, raw = {vt!r}, {rawf!r}', 'poly = dimod.BinaryPolynomial(raw, vt)']
+    exec('\n'.join(stmts), env)
+    ref = dict(norm(raw, vt))
+    fresh = ((f'n{i}' if i % 3 else 20 + i) for i in itertools.count())
+    state = {'last': 'none', 'since': [], 'nred': 0, 'ok': True}
+    tl = lambda t: '&'.join(lab(v) for v in t)   # noqa: E731
+    ptext = lambda items: ';'.join(tl(t) + '=' + rat(fr(b)) for t, b in items) or '-'   # noqa: E731
+    hist = {'base': ptext(rawf), 'ops': []}      # the object model `Red.objectAfter`: the terms it started from and the mutations since
+    igt = lambda ig: '|'.join(tl(t) for t in ig) if ig else '-'   # noqa: E731
+
+    def fail(site, cls, what, check):
+        state['ok'] = False
+        ctx.fail('property', site, cls, what[:1500], repro=pre + '\n'.join(stmts) + '\n' + _plit(ref) + '\n' + check + '\n')
+
+    def spell(t):
+        t = list(t); r.shuffle(t)
+        k = r.random()
+        return repr(tuple(t)) if k < .5 else repr(t) if k < .7 else f'frozenset({t!r})' if k < .9 else (f'set({t!r})' if t else 'frozenset()')
+
+    def do(stmt):
+        stmts.append(stmt)
+        with warnings.catch_warnings():
+            warnings.simplefilter('ignore')
+            exec(stmt, env)
+
+    def mutate():
+        poly = env['poly']
+        terms = list(ref)
+        kinds = ['scale', 'scale', 'scale-ignored', 'normalize', 'set', 'set', 'iadd', 'update-existing', 'setdefault-existing',
+                 'add', 'del', 'relabel', 'pop', 'update-new', 'setdefault-new', 'popitem', 'relabel-swap']
+        kind = r.choice(kinds)
+        if not terms and kind not in ('add', 'update-new', 'setdefault-new'):
+            kind = 'add'
+        nonconst = [t for t in terms if t]
+        if kind == 'scale':
+            c = r.choice([2, -1, .5, .25, -2, 4, 1.5, -.5] + ([0] if r.random() < .15 else []))
+            do(f'poly.scale({c!r})')
+            for t in terms: ref[t] *= F(c)
+            hist['ops'].append(f'scale@{rat(F(c))}@-')
+        elif kind == 'scale-ignored':
+            ig = r.sample(terms, r.randint(0, len(terms)))
+            c = r.choice([2, -1, .5, -2, 4])
+            do(f'poly.scale({c!r}, ignored_terms=[{", ".join(spell(t) for t in ig)}])')
+            for t in terms:
+                if t not in ig: ref[t] *= F(c)
+            hist['ops'].append(f'scale@{rat(F(c))}@{igt(ig)}' if not (ig and any(not t for t in ig)) else None)
+        elif kind == 'normalize':
+            ig = r.sample(terms, r.randint(0, min(1, len(terms)))) if r.random() < .4 else []
+            lin = [abs(ref[t]) for t in terms if len(t) == 1 and t not in ig]; hi = [abs(ref[t]) for t in terms if len(t) > 1 and t not in ig]
+            Ml, Mh = max(lin, default=F(0)), max(hi, default=F(0))
+            if max(Ml, Mh) == 0:
+                kind = 'none'
+            else:
+                c = F(r.choice([1, 2, 4, 1, F(1, 2)]))
+                if r.random() < .5 and Ml and Mh:
+                    c2 = F(r.choice([1, 2, F(1, 2)]))
+                    R1, R2 = Ml * c, Mh * c2            # inv_scalar = max(1/c, 1/c2): a power of two, the division is exact
+                    do(f'poly.normalize({float(R1)!r}, poly_range={float(R2)!r}' + (f', ignored_terms=[{", ".join(spell(t) for t in ig)}]' if ig else '') + ')')
+                    k = min(c, c2)
+                    hist['ops'].append(f'norm@{rat(-R1)},{rat(R1)}@{rat(-R2)},{rat(R2)}@{igt(ig)}' if not (ig and any(not t for t in ig)) else None)
+                else:
+                    R1 = max(Ml, Mh) * c
+                    rng_ = repr(float(R1)) if r.random() < .6 else repr((-float(R1), float(R1)))
+                    do(f'poly.normalize({rng_}' + (f', ignored_terms=[{", ".join(spell(t) for t in ig)}]' if ig else '') + ')')
+                    k = c
+                    hist['ops'].append(f'norm@{rat(-R1)},{rat(R1)}@{rat(-R1)},{rat(R1)}@{igt(ig)}' if not (ig and any(not t for t in ig)) else None)
+                # definition: every non-ignored term is multiplied by the largest factor that fits the ranges
+                for t in terms:
+                    if t not in ig: ref[t] *= k
+        elif kind == 'set':
+            t = r.choice(terms); b = F(r.randint(-16, 16), 4)
+            do(f'poly[{spell(t)}] = {float(b)!r}'); ref[t] = b
+            hist['ops'].append(f'set@{tl(t)}@{rat(b)}')
+        elif kind == 'iadd':
+            t = r.choice(terms); b = F(r.randint(-8, 8), 4)
+            do(f'poly[{spell(t)}] += {float(b)!r}'); ref[t] += b
+            hist['ops'].append(f'iadd@{tl(t)}@{rat(b)}')
+        elif kind == 'update-existing':
+            ts = r.sample(terms, r.randint(1, len(terms))); bs = [F(r.randint(-16, 16), 4) for _ in ts]
+            do('poly.update({' + ', '.join(f'{tuple(sorted(t, key=repr))!r}: {float(b)!r}' for t, b in zip(ts, bs)) + '})')
+            for t, b in zip(ts, bs): ref[t] = b; hist['ops'].append(f'set@{tl(t)}@{rat(b)}')
+        elif kind == 'setdefault-existing':
+            t = r.choice(terms)
+            do(f'poly.setdefault({tuple(t)!r}, 7.0)')
+        elif kind in ('add', 'update-new', 'setdefault-new'):
+            vs = sorted({v for t in ref for v in t}, key=repr)
+            pool = vs + ([next(fresh)] if (r.random() < .4 and len(vs) < 6) or len(vs) < 3 else [])
+            for _ in range(20):
+                t = frozenset(r.sample(pool, min(len(pool), r.choice([1, 2, 3, 3, 4]))))
+                if t not in ref:
+                    break
+            else:
+                t = frozenset()
+            if t in ref:
+                kind = 'none'
+            else:
+                b = F(r.randint(-16, 16), 4)
+                if kind == 'add':
+                    do(f'poly[{spell(t)}] = {float(b)!r}')
+                elif kind == 'update-new':
+                    do(f'poly.update({{{tuple(sorted(t, key=repr))!r}: {float(b)!r}}})')
+                else:
+                    do(f'poly.setdefault({tuple(sorted(t, key=repr))!r}, {float(b)!r})')
+                ref[t] = b
+                hist['ops'].append(f'set@{tl(t)}@{rat(b)}')
+        elif kind == 'del':
+            t = r.choice(terms)
+            do(f'del poly[{spell(t)}]'); del ref[t]
+            hist['ops'].append(f'del@{tl(t)}')
+        elif kind == 'pop':
+            t = r.choice(terms)
+            do(f'poly.pop({tuple(t)!r})'); del ref[t]
+            hist['ops'].append(f'del@{tl(t)}')
+        elif kind == 'popitem':
+            do('popped = poly.popitem()'); del ref[env['popped'][0]]
+            hist['ops'].append('popitem')
+        elif kind in ('relabel', 'relabel-swap'):
+            vs = sorted({v for t in ref for v in t}, key=repr)
+            if not vs or (kind == 'relabel-swap' and len(vs) < 2):
+                kind = 'none'
+            else:
+                if kind == 'relabel-swap':
+                    a, b = r.sample(vs, 2); mp = {a: b, b: a}
+                    if r.random() < .5 and len(vs) > 2:
+                        c = r.choice([v for v in vs if v not in (a, b)]); mp = {a: b, b: c, c: a}
+                else:
+                    mp = {v: next(fresh) for v in r.sample(vs, r.randint(1, min(2, len(vs))))}
+                do(f'poly.relabel_variables({mp!r})')
+                new = {frozenset(mp.get(v, v) for v in t): b for t, b in ref.items()}
+                ref.clear(); ref.update(new)
+                # conflict-free mappings: Red.safeRelabel / relabelStep; a swap / cycle goes through resolve_label_conflict: Red.relabelConflict
+                conflict = any(v in set(mp.values()) for v in mp)        # the code's own test in iter_safe_relabels
+                hist['ops'].append(('relabelvia@' if conflict else 'relabel@') + ','.join(f'{lab(a)}>{lab(b)}' for a, b in mp.items()))
+        state['last'] = kind; state['since'].append(kind)
+        ctx.tick(f'history:mut:{kind}')
+        try:
+            env['reads'](env['poly'], ref)
+        except AssertionError as e:
+            fail('BinaryPolynomial', f'state of the object after {kind}', f'{vt} {raw!r} after {stmts[2:]!r}: {e}', 'reads(poly, P)')
+        except Exception as e:  # noqa
+            fail('BinaryPolynomial', f'read accessor raises after {kind}', f'{vt} {raw!r} after {stmts[2:]!r}: {type(e).__name__}: {e}', 'reads(poly, P)')
+        if None in hist['ops']:
+            hist['base'], hist['ops'] = ptext(list(env['poly'].items())), []
+        # refusals: a key that is not there
+        if state['ok'] and r.random() < .12:
+            vs = sorted({v for t in ref for v in t}, key=repr) + ['zz']
+            t = frozenset(r.sample(vs, min(len(vs), r.randint(1, 3))) + ['zz'])
+            how = r.choice(['del', 'iadd', 'pop'] + (['relabel-same', 'relabel-existing'] if len(vs) >= 3 else []))
+            if how.startswith('relabel'):
+                a, b = r.sample(vs[:-1], 2)
+                mpx = {a: 'q9', b: 'q9'} if how == 'relabel-same' else {a: b}
+            stmt = {'del': f'del poly[{tuple(t)!r}]', 'iadd': f'poly[{tuple(t)!r}] += 1.0', 'pop': f'poly.pop({tuple(t)!r})'}.get(how) or f'poly.relabel_variables({mpx!r})'
+            try:
+                exec(stmt, env); raised = None
+            except Exception as e:  # noqa
+                raised = type(e).__name__
+            ctx.tick(f'history:refusal:{how}')
+            bad_op = (('iadd@' + tl(t) + '@1') if how == 'iadd' else 'relabel@' + ','.join(f'{lab(a_)}>{lab(b_)}' for a_, b_ in mpx.items()) if how.startswith('relabel') else 'del@' + tl(t))
+            lines.append(f"hist {vt} {hist['base']} " + '!'.join(hist['ops'] + [bad_op]))
+            checks.append((f'BinaryPolynomial: refused {how} vs Red.applyOp', how, 'ok ?' if raised is None else f'err {raised}', pre + '\n'.join(stmts) + '\n' + stmt + '\n', False))
+            exc = 'ValueError' if how.startswith('relabel') else 'KeyError'
+            if raised != exc:
+                fail('BinaryPolynomial', f'{how}: {exc} expected', f'{vt} {raw!r} after {stmts[2:]!r}: {stmt}: {raised}', f'try:\n    {stmt}\n    ok = False\nexcept {exc}:\n    ok = True\nassert ok')
+            else:
+                try:
+                    env['reads'](env['poly'], ref)      # a refused mutation leaves the object as it was
+                except Exception as e:  # noqa
+                    fail('BinaryPolynomial', f'refused {how} changes the object', f'{vt} {raw!r} after {stmts[2:]!r}: {stmt}: {e}', f'try:\n    {stmt}\nexcept {exc}:\n    pass\nreads(poly, P)')
+
+    def hist_line(why):
+        if hist['ops']:
+            lines.append(f"hist {vt} {hist['base']} " + '!'.join(hist['ops']))
+            checks.append(('BinaryPolynomial mutations vs Red.objectAfter', why, 'ok ' + ';'.join(sorted(term_text(t, fr(b)) for t, b in env['poly'].items())), pre + '\n'.join(stmts) + '\n', False))
+
+    given = None
+
+    def reduce_again():
+        nonlocal given
+        nprod = sum(max(0, len(t) - 2) for t in ref)
+        nv = len({v for t in ref for v in t})
+        ops = ['reduce', 'mq', 'mq', 'mq-vt', 'mq-copy']
+        if nv + 2 * sum(2 ** max(0, len(t) - 2) - 1 for t in ref) <= 10 and max((len(t) for t in ref), default=0) <= 4: ops += ['mq-converted']
+        if nv + nprod <= 9: ops += ['cqm']
+        if nv + 2 * nprod <= 11: ops += ['hoc', 'hoc']
+        if nv + 2 * nprod <= 9: ops += ['mq-given']
+        op = r.choice(ops)
+        strength = r.choice([1.0, 2.0, 0.5, 5.0])
+        since = state['since']; state['since'] = []
+        bias_only = bool(since) and all(k in HIST_BIAS_ONLY for k in since) and any(k != 'none' for k in since)
+        cls = ('first reduction of the object' if state['nred'] == 0 else
+               'same object reduced again after a bias-only mutation' if bias_only else
+               'same object reduced again without a mutation' if not [k for k in since if k != 'none'] else
+               'same object reduced again after adding / deleting / relabelling terms')
+        items_before = [(tuple(t), fr(b)) for t, b in env['poly'].items()]
+        hist_line('state before ' + op)
+        site, check = {'reduce': ('reduce_binary_polynomial', 'red, cons = dimod.reduce_binary_polynomial(poly)\nexact_red(red, cons, P)'),
+                       'mq': ('make_quadratic', f'bqm = dimod.make_quadratic(poly, {strength!r}, vt)\nexact_bqm(bqm, P)'),
+                       'mq-vt': ('make_quadratic', f'bqm = dimod.make_quadratic(poly, {strength!r}, {"dimod." + vt if r.random() < .5 else repr(set(dom))})\nexact_bqm(bqm, P)'),
+                       'mq-copy': ('make_quadratic', f'bqm = dimod.make_quadratic(poly.copy(), {strength!r}, vt)\nexact_bqm(bqm, P)'),
+                       'mq-converted': ('make_quadratic', f'other = poly.to_spin() if poly.vartype is dimod.BINARY else poly.to_binary()\nbqm = dimod.make_quadratic(other, {strength!r}, other.vartype)\nexact_bqm(bqm, conv(P, poly.vartype is dimod.BINARY), dom=(-1, 1) if poly.vartype is dimod.BINARY else (0, 1))'),
+                       'mq-given': ('make_quadratic', None), 'cqm': ('make_quadratic_cqm', 'cqm = dimod.make_quadratic_cqm(poly)\nexact_cqm(cqm, P)'),
+                       'hoc': ('HigherOrderComposite.sample_poly', f'child = Rec()\nss = dimod.HigherOrderComposite(child).sample_poly(poly, penalty_strength={strength!r}, keep_penalty_variables={r.random() < .5}, discard_unsatisfied={r.random() < .5})\nexact_hoc(ss, child, P)')}[op]
+        if op == 'mq-given':
+            if given is None or not set(given[1]) <= {v for t in ref for v in t} | {'g'}:
+                vs = sorted({v for t in ref for v in t}, key=repr)
+                gv = r.sample(vs, min(2, len(vs))) + ['g']
+                given = (f'dimod.BinaryQuadraticModel({ {v: float(r.randint(-4, 4)) / 2 for v in gv}!r}, {{({gv[0]!r}, "g"): {r.randint(-4, 4) / 2!r}}}, {r.randint(-2, 2) / 2!r}, vt)', gv)
+            check = f'given = {given[0]}\nbqm = dimod.make_quadratic(poly, {strength!r}, vt, bqm=given.copy())\nexact_bqm(bqm, P, given)'
+        call, pred = check.rsplit('\n', 1)
+        ctx.tick(f'history:{op}:{cls.replace("same object reduced again ", "again ")}')
+        if bias_only: ctx.tick('history:reduce-after-bias-only')
+        ctx.case(('history', vt, tuple(stmts), op), nontrivial=state['nred'] > 0 and any(len(t) > 2 for t in ref), sample=dict(history=stmts[2:] + [call]))
+        env['P'] = dict(ref)
+        try:
+            with warnings.catch_warnings():
+                warnings.simplefilter('ignore')
+                exec(call, env)
+        except Exception as e:  # noqa
+            fail(site, cls + ': raises', f'{vt} {raw!r}, history {stmts[2:]!r}, then {call!r}: {type(e).__name__}: {e}', check)
+            return
+        try:
+            exec(pred, env)
+        except AssertionError as e:
+            fail(site, cls, f'{vt} {raw!r}, history {stmts[2:]!r}, then {call!r}: {e}', check)
+            return
+        stmts.extend(call.split('\n'))
+        state['nred'] += 1
+        # the polynomial object itself is not changed by a reduction
+        try:
+            env['reads'](env['poly'], ref)
+        except Exception as e:  # noqa
+            fail(site, 'the polynomial argument is changed by the reduction', f'{vt} {raw!r}, history {stmts[2:]!r}: {e}', 'reads(poly, P)')
+            return
+        # correspondence: the model's make_quadratic of the CURRENT terms, replayed on the implementation's own choices
+        if op in ('mq', 'mq-vt'):
+            bqm = env['bqm']; info = bqm.info['reduction']
+            raw_text = ';'.join('&'.join(lab(v) for v in t) + '=' + rat(b) for t, b in items_before) or '-'
+            cons_q = ','.join(f'{lab(u)}~{lab(v)}>{lab(d["product"])}' for (u, v), d in info.items()) or '-'
+            auxs = [d['auxiliary'] for d in info.values() if 'auxiliary' in d]
+            lines.append(f'mq {vt} {rat(F(strength))} {raw_text} {cons_q}')
+            checks.append((site + ' vs Red.makeQuadratic (history)', cls, 'ok ' + canon_bqm(bqm) + '|' + ','.join(lab(a) for a in auxs), pre + '\n'.join(stmts) + '\n', False))
+        # the caller owns what a reduction returns: emptying it must not affect a later reduction
+        if op == 'reduce' and r.random() < .5:
+            do('red.clear(); cons.clear()')
+        if op in ('mq', 'mq-vt') and r.random() < .3:
+            do('bqm.scale(3.0); bqm.info["reduction"].clear()')
+
+    reduce_again()
+    for _ in range(r.randint(1, 4)):
+        if not state['ok']:
+            return
+        for _ in range(r.choice([0, 1, 1, 1, 2, 3])):
+            mutate()
+            if not state['ok']:
+                return
+        reduce_again()
+
+
+
 def aux_collision_directed():
     """labels chosen so that 'aux{u},{v}' of one pair is the product name '{a}*{b}' of another, in both
     orientations (`frozenset` iteration order decides which): D37"""
@@ -1027,8 +1406,13 @@ def run(ctx):
         one_case(ctx, r, lines, checks, directed=(vt, [((0, 1, 2, 'a'), F(-2)), ((0, 1, 3), F(1)), (('b',), F(3, 4)), ((2, 3), F(1, 2))]),
                  record_modes=['ok', 'permuted', 'zero-rows', 'drop-product', 'drop-factor', 'drop-polyvar', 'dup-field', 'direct'])
     one_case(ctx, r, lines, checks, directed=('SPIN', [((0, 1), F(-2)), ((0,), F(1))]), record_modes=['ok', 'zero-rows', 'drop-polyvar', 'direct'])
-    for _ in range(ctx.scale(230, 2200)):
+    for _ in range(ctx.scale(230, 1600)):
         one_case(ctx, r, lines, checks)
+    # histories on one polynomial object (stale per-object caches: seed C15-9 and its class)
+    for vt in ('BINARY', 'SPIN'):
+        history_case(ctx, r, lines, checks, directed=(vt, [(('a', 'b', 'c'), F(1)), (('a', 'b', 'd'), F(-3, 2)), (('a',), F(1, 2)), ((), F(1, 4))]))
+    for _ in range(ctx.scale(130, 1000)):
+        history_case(ctx, r, lines, checks)
     if not ctx.quick:
         for _ in range(200):
             one_case(ctx, r, lines, checks, big=True)
